@@ -588,7 +588,9 @@ def table2Of (j : Json) : R (String → String → Option String) := do
 
 open Edxml.Tpl in
 def opTemplate (j : Json) : R Json := do
-  let toks ← toksOf (← fldArr j "nodes")
+  let toks ← match j.getObjVal? "template" with
+    | .ok (Json.str t) => pure (tokenize t)
+    | _ => toksOf (← fldArr j "nodes")
   let et : EType := { props := ← (← fldArr j "props").mapM (pairOf str str), attachments := ← fldStrs j "attachments" }
   let valid := validate et toks
   let outs ← (← fldArr j "envs").mapM fun e => do
